@@ -18,6 +18,7 @@ import contextlib
 import io
 import itertools
 import sys
+import time
 
 from vlib import common as V
 
@@ -93,16 +94,41 @@ def pushed(prog):
 # oracle workers (module level: they run in forked processes)
 # ----------------------------------------------------------------------------
 
+def apply_element(key, args):
+    """Execute the table entry of element `key` (its transpiled template, exactly what a
+    program containing the element runs) on a stack holding `args`; returns the canonical
+    top of stack.  The original value is handed over as a value, not spelled as a literal,
+    so that the literal syntax (properties C03/C05) is not part of this measurement."""
+    import vyxal.main as M
+    from vyxal import elements as E
+    from vyxal.context import Context
+    try:
+        ctx = Context()
+        stack = list(args)
+        ctx.stacks.append(stack)
+        g = dict(vars(M))
+        g.update(stack=stack, ctx=ctx)
+        exec(E.elements[key][0], g)
+    except V.Timeout:
+        raise
+    except BaseException as e:  # noqa: BLE001
+        return ["error", type(e).__name__ + ": " + str(e)[:120]]
+    if len(stack) != 1:
+        return ["error", f"{len(stack)} values on the stack"]
+    return canon_val(stack[0])
+
+
 def w_int(n):
-    """n -> øC -> run -> n.  Returns (text, back)."""
-    t = pushed(f"{n}øC")
+    """n -> øC -> run the text -> n.  Returns text and the value pushed."""
+    import sympy
+    t = apply_element("øC", [sympy.Integer(n)])
     if t[0] != "str":
         return {"stage": "compress", "got": t}
     return {"text": t[1], "back": pushed(t[1])}
 
 
 def w_str(s):
-    t = pushed("`" + s + "`øc")
+    t = apply_element("øc", [s])
     if t[0] != "str":
         return {"stage": "compress", "got": t}
     return {"text": t[1], "back": pushed(t[1])}
@@ -110,24 +136,24 @@ def w_str(s):
 
 def w_dict(s):
     plain = pushed("`" + s + "`")
-    t = pushed("`" + s + "`øD")
+    t = apply_element("øD", [s])
     if t[0] != "str":
         return {"stage": "compress", "got": t, "plain": plain}
     return {"text": t[1], "back": pushed(t[1]), "plain": plain}
 
 
 def w_base(item):
-    """element τ then β through programs, and the helpers directly."""
+    """elements τ then β, and the helpers directly."""
+    import sympy
     n, b = item
     from vyxal import helpers as H
     ds = H.to_base_digits(n, b)
     hback = H.from_base_digits(ds, b)
     r = {"h_digits": [int(d) for d in ds], "h_back": int(hback)}
-    t = pushed(f"{n} {b}τ")
+    t = apply_element("τ", [sympy.Integer(n), sympy.Integer(b)])
     r["digits"] = t
     if t[0] == "list" and all(d[0] == "int" for d in t[1]) and t[1]:
-        lit = "⟨" + "|".join(str(d[1]) for d in t[1]) + "⟩"
-        r["back"] = pushed(f"{lit} {b}β")
+        r["back"] = apply_element("β", [[sympy.Integer(d[1]) for d in t[1]], sympy.Integer(b)])
     return r
 
 
@@ -357,8 +383,10 @@ def correspondence(env, extra_cases):
             {"fn": "uncompress_dict", "source": src})
     base = len(cases)
     cases.extend(extra_cases)
+    t0 = time.time()
     ok, bad, logs = env.coq_mismatches("codec", PREAMBLE, lambda lo, hi: "[" + ";\n".join(c for c, _ in cases[lo:hi]) + "]",
                                        "check_case", len(cases), shard=700)
+    V.log(f"[C15] correspondence: {len(cases)} cases in {time.time() - t0:.1f}s")
     if not ok:
         env.proof_broken("codec correspondence cases failed to evaluate in Coq", logs)
     for i in bad:
@@ -398,7 +426,9 @@ def oracle(env):
     # ---- integers through øC ---------------------------------------------
     top = env.budget(3000, 100000)
     ints = list(range(1, top + 1)) + [n for n in huge_ints(rng, env.budget(150, 1500)) if n > top]
+    t0 = time.time()
     res = V.pmap(w_int, ints, timeout=60)
+    V.log(f"[C15] oracle integers: {len(ints)} in {time.time() - t0:.1f}s")
     over = under = 0
     stride = max(1, len(ints) // 30000)
     for idx, (n, (st, r)) in enumerate(zip(ints, res)):
@@ -428,7 +458,9 @@ def oracle(env):
 
     # ---- strings over [a-z ] through øc ------------------------------------
     strs = lower_strings(rng, env.budget(2, 3), env.budget(300, 3000))
+    t0 = time.time()
     res = V.pmap(w_str, [""] + strs, timeout=60)
+    V.log(f"[C15] oracle strings: {len(strs)} in {time.time() - t0:.1f}s")
     st0, r0 = res[0]
     if not (st0 == "ok" and r0.get("back") == ["str", ""]):
         env.fail({"kind": "lower", "s": ""}, f"øc on the empty string: {r0 if st0 == 'ok' else st0}", cls="compress-empty-string")
@@ -460,7 +492,9 @@ def oracle(env):
     words = [w for w in D.contents if w and all(c in ASCII_OK for c in w)]
     dstrs = dict_strings(rng, words, env.budget(600, 6000))
     dstrs += ["".join(t) for t in itertools.product(ASCII_OK, repeat=1)]
+    t0 = time.time()
     res = V.pmap(w_dict, dstrs, timeout=60)
+    V.log(f"[C15] oracle dictionary: {len(dstrs)} in {time.time() - t0:.1f}s")
     saved = shorter = 0
     cpset = set(ENC.codepage)
     for s, (st, r) in zip(dstrs, res):
@@ -494,7 +528,9 @@ def oracle(env):
     items = [(n, b) for b in bases for n in ([0, 1, b - 1, b, b + 1] + [rng.randrange(b ** rng.randint(1, 6)) for _ in range(env.budget(2, 10))])]
     items += power_neighbours(rng, bases, 10 ** 120, env.budget(6, 24))
     items = sorted(set(items))
+    t0 = time.time()
     res = V.pmap(w_base, items, timeout=60)
+    V.log(f"[C15] oracle bases: {len(items)} in {time.time() - t0:.1f}s")
     bunder = bover = 0
     stride = max(1, len(items) // 20000)
     for idx, ((n, b), (st, r)) in enumerate(zip(items, res)):
@@ -506,13 +542,13 @@ def oracle(env):
             env.fail(inp, f"helpers: to_base_digits gives {r['h_digits'][:8]}, from_base_digits gives {r['h_back']}", cls="base-helpers")
         t = r["digits"]
         if not (t[0] == "list" and t[1] and all(d[0] == "int" for d in t[1])):
-            env.fail(inp, f"n bτ does not push a digit list: {t!r}"[:300], cls="to_base-zero" if n == 0 else "base-to_base-error")
+            env.fail(inp, f"τ does not give a digit list: {t!r}"[:300], cls="to_base-zero" if n == 0 else "base-to_base-error")
             continue
         ds = [d[1] for d in t[1]]
         if not all(0 <= d < b for d in ds):
-            env.fail(inp, f"n bτ has a digit outside the base: {ds[:8]}", cls="base-digit-range")
+            env.fail(inp, f"τ gives a digit outside the base: {ds[:8]}", cls="base-digit-range")
         if r.get("back") != ["int", n]:
-            env.fail(inp, f"n bτ bβ pushes {r.get('back')!r} (digits {ds[:8]}...)", cls="base-roundtrip")
+            env.fail(inp, f"τ then β gives {r.get('back')!r} (digits {ds[:8]}...)", cls="base-roundtrip")
         e = len(ds) - 1
         if b ** (e + 1) <= n:
             bunder += 1
@@ -544,11 +580,11 @@ def oracle(env):
 
 def run(env):
     env.rule = ("ORACLE (on the implementation, programs run with execute_vyxal, the pushed value read from its locals): "
-                "n -> `nøC` -> run the produced text -> n for every integer 1..N (N=3000 quick, 10^5 thorough) and integers sampled to 10^120 "
+                "n -> element øC (its table template executed on a stack holding n) -> run the produced text as a program -> n for every integer 1..N (N=3000 quick, 10^5 thorough) and integers sampled to 10^120 "
                 "(all 255^k-1, 255^k, 255^k+1; a quarter of the powers of 256, 10, 2, 27, 160; random 4..120-digit numbers); "
                 "s -> øc -> run -> s for every string of length 1..L over [a-z ] not starting with a space (L=2 quick, 3 thorough), random ones to length 80, and the empty string; "
                 "s -> øD -> run -> s with len(text) <= len(s)+2 for random concatenations of dictionary words, ASCII chunks and separators (printable ASCII without backslash/back-quote, to length 80) and every single ASCII character; "
-                "n bτ then bβ for every base 2..300 with n in {0,1,b-1,b,b+1}, random n < b^6 and b^k-1,b^k,b^k+1 up to 10^120, digits inside the base; helpers' digit/alphabet round trips on the same inputs. "
+                "elements τ then β (templates executed on a stack) for every base 2..300 with n in {0,1,b-1,b,b+1}, random n < b^6 and b^k-1,b^k,b^k+1 up to 10^120, digits inside the base; helpers' digit/alphabet round trips on the same inputs. "
                 "CORRESPONDENCE (evaluated in Coq): model vs implementation for to_base_digits, from_base_digits, to_base_alphabet, from_base_alphabet, "
                 "uncompress_num, uncompress_str, uncompress_dict, element to_base, øC, øc, øD. Non-trivial = every case (all change the value); distinct by canonical input.")
     extra = oracle(env)
